@@ -8,7 +8,8 @@ BOUNDS = {'quick': 'all 4^3 wavelength-unit triples (with aliases) and 3^3 flux-
           'thorough': 'grids of length up to 4'}
 ASSUMPTIONS = ['"peaks where Wien\'s law says" and "integrates to the Stefan-Boltzmann total" are facts of analysis about the textbook formula that the harness pins lentil to; no SMT solver decides them and they are not checked',
                'physical constants H, C, K are read from lentil.radiometry (the source has C = 299792456, 7e-9 off the SI value; no clause depends on it)',
-               'relative tolerance 1e-12 where lentil folds the constants in floating point in a different order than the reference']
+               'relative tolerance 1e-12 where lentil folds the constants in floating point in a different order than the reference',
+               'Planck: lambda*T > 1e-4 m K (the exponent stays inside the range of double-precision exp)']
 STUBS = ['numpy.exp of a real symbolic argument: atom exp(a) > 0, congruent on the canonical argument (and > 1 for a positive argument)']
 WU = ['m', 'um', 'nm', 'angstrom']
 ALIAS = {'m': 'meter', 'um': 'micron', 'nm': 'nanometer', 'angstrom': 'Angstrom'}
@@ -129,6 +130,23 @@ def run_planck(W, cfg):
     lam = W.real('lam', pos=True)
     T = W.real('T', pos=True)
     wu, vu = cfg['waveunit'], cfg['valueunit']
+    def int_grid_ok():
+        import numpy as _np
+        Rr = W.lentil.radiometry
+        Tc = 3000.0
+        for grid in (_np.array([7000, 9000, 14000]), _np.arange(4000, 10001, 3000)):
+            for fn in (Rr.planck_radiance, Rr.planck_exitance):
+                a = _np.asarray(fn(grid, Tc, waveunit=wu, valueunit=vu), dtype=float)
+                b = _np.asarray(fn(grid.astype(float), Tc, waveunit=wu, valueunit=vu), dtype=float)
+                ok = _np.isfinite(b) & (b > 0)
+                if a.shape != b.shape or not _np.all(_np.abs(a[ok] - b[ok]) <= 1e-12 * _np.abs(b[ok])):
+                    return False
+        return True
+    if wu != 'm':            # (integers of metres are not wavelengths anyone holds; in metres the unit factor is the integer 1)
+        W.ob_concrete('wavelengths held as integers (beyond 2^63 ** (1/5)) give the same radiance and exitance as the same wavelengths held as floats', int_grid_ok)
+    # the exponent hc/(lambda k T) within the range of double-precision exp (lambda*T > 1e-4 m K, i.e. exponent < 144): also what makes
+    # the float comparison of the validation run possible at all
+    W.assume(lam * T * W.const(TO_M[wu]) > W.const('1/10000'))
     rad = R.planck_radiance(lam, T, waveunit=wu, valueunit=vu)
     exi = R.planck_exitance(lam, T, waveunit=wu, valueunit=vu)
     # reference in SI (W m^-2 m^-1 sr^-1), converted to the requested units by the spec's own table
